@@ -28,6 +28,9 @@ pub struct Config {
     /// seccomp filter in a forked child per call); implies `real`
     #[serde(default)]
     pub os_fail: bool,
+    /// the process forks (as servers do) and both sides generate: implies `real`
+    #[serde(default)]
+    pub forked: bool,
     pub eps: Vec<u16>,
     pub calls_per_ep: usize,
 }
@@ -132,6 +135,8 @@ eps! {
     60, "crypto_secretbox_keygen_inplace (reused buffer)", false, true;
     61, "PwHash::hash(salt 32)", false, true;
     62, "PwHash::hash(salt 64)", false, true;
+    63, "rng::randombytes_buf(1 MiB)", false, true;
+    64, "rng::copy_randombytes(1 MiB + 1)", false, true;
 }
 
 pub fn available_eps() -> Vec<u16> {
@@ -343,6 +348,12 @@ impl RngWorld {
                 id(b)
             }
             57 => id(dryoc::rng::randombytes_buf(64 + (arg % 4937) as usize)),
+            63 => id(dryoc::rng::randombytes_buf(1 << 20)),
+            64 => {
+                let mut b = vec![0u8; (1 << 20) + 1];
+                dryoc::rng::copy_randombytes(&mut b);
+                id(b)
+            }
             58 => {
                 // the same State object and the same header buffer every time
                 let key: [u8; 32] = pattern(9, 32).try_into().unwrap();
@@ -431,6 +442,10 @@ enum ChildOutcome {
 impl RngWorld {
     /// Execute one entry point in a forked child in which the OS generator refuses.
     fn call_in_failing_child(&self, ep: u16, arg: u64) -> ChildOutcome {
+        self.call_in_child(ep, arg, true)
+    }
+
+    fn call_in_child(&self, ep: u16, arg: u64, deny: bool) -> ChildOutcome {
         unsafe {
             let mut fds = [0 as libc::c_int; 2];
             if libc::pipe(fds.as_mut_ptr()) != 0 {
@@ -443,12 +458,12 @@ impl RngWorld {
             if pid == 0 {
                 libc::close(fds[0]);
                 let mut msg: Vec<u8> = Vec::new();
-                if !deny_getrandom() {
+                if deny && !deny_getrandom() {
                     msg.push(b'H');
                 } else {
                     // make sure the fault really is in place before judging anything
                     let mut probe = [0u8; 8];
-                    let r = libc::syscall(libc::SYS_getrandom, probe.as_mut_ptr(), 8usize, 0u32);
+                    let r = if deny { libc::syscall(libc::SYS_getrandom, probe.as_mut_ptr(), 8usize, 0u32) } else { -1 };
                     if r >= 0 {
                         msg.push(b'H');
                     } else {
@@ -499,6 +514,50 @@ impl RngWorld {
                         ChildOutcome::Panicked
                     } else {
                         ChildOutcome::Harness("child wrote nothing".into())
+                    }
+                }
+            }
+        }
+    }
+
+    /// The process forks after having used the generator; the two children (and the
+    /// parent afterwards) must not hand out the same values.
+    fn step_forked(&mut self, ep: u16, arg: u64, info: &EpInfo, out: &mut Out) {
+        // warm-up in the parent: whatever per-process / per-thread state the generator keeps exists now
+        let warm = guarded(|| self.call(ep, arg));
+        let a = self.call_in_child(ep, arg, false);
+        let b = self.call_in_child(ep, arg, false);
+        let after = guarded(|| self.call(ep, arg));
+        out.op();
+        out.shape(&format!("K{}", ep));
+        out.cell(&format!("{}|forked", info.name));
+        out.fault("process_fork");
+        let val = |c: &ChildOutcome| -> Option<Vec<u8>> {
+            match c {
+                ChildOutcome::Returned(v) if v.len() >= 16 => Some(v.clone()),
+                _ => None,
+            }
+        };
+        let pv = |r: &Result<Result<CallOut, String>, (String, String)>| -> Option<Vec<u8>> {
+            match r {
+                Ok(Ok(c)) if c.component.len() >= 16 => Some(c.component.clone()),
+                _ => None,
+            }
+        };
+        let vals: Vec<(&str, Option<Vec<u8>>)> = vec![("parent before fork", pv(&warm)), ("first child", val(&a)), ("second child", val(&b)), ("parent after fork", pv(&after))];
+        out.note(&format!("call {} across fork: {} values", info.name, vals.iter().filter(|v| v.1.is_some()).count()));
+        out.probe("forked.compared");
+        for i in 0..vals.len() {
+            for j in i + 1..vals.len() {
+                if let (Some(x), Some(y)) = (&vals[i].1, &vals[j].1) {
+                    if x == y {
+                        out.violate(
+                            "C11",
+                            "c11.fresh_across_fork",
+                            site(&[("entry", info.name)]),
+                            format!("{} returned the same {}-byte value in the {} and in the {}", info.name, x.len(), vals[i].0, vals[j].0),
+                        );
+                        return;
                     }
                 }
             }
@@ -570,9 +629,13 @@ impl World for RngWorld {
         } else {
             16 + rng.usize_below(17)
         };
-        let os_fail = real && !cfg!(feature = "nightly") && rng.chance(1, 3);
-        let calls = if os_fail { 6 } else { calls };
-        Config { prop: prop.to_string(), rseed: rng.next_u64(), real, os_fail, eps, calls_per_ep: calls }
+        let variant = if real && !cfg!(feature = "nightly") { rng.below(3) } else { 0 };
+        let os_fail = variant == 1;
+        let forked = variant == 2;
+        let calls = if os_fail || forked { 6 } else { calls };
+        // the two 1 MiB entry points are expensive: at most 16 calls each
+        let calls = if eps.iter().any(|e| *e == 63 || *e == 64) { calls.min(16) } else { calls };
+        Config { prop: prop.to_string(), rseed: rng.next_u64(), real, os_fail, forked, eps, calls_per_ep: calls }
     }
 
     fn new(cfg: &Config) -> Self {
@@ -629,6 +692,10 @@ impl World for RngWorld {
         };
         if self.cfg.os_fail {
             self.step_os_fail(*ep, *arg, info, out);
+            return;
+        }
+        if self.cfg.forked {
+            self.step_forked(*ep, *arg, info, out);
             return;
         }
         let before = self.ledger.borrow().draws.len();
